@@ -18,10 +18,10 @@ add('C01','break: unstring_annotation handles SyntaxError only (F14 returns)','b
 
 # ---------------- C02
 add('C02','twin: del -> pop in reparent','twin',[('pydoctor/model.py',"        del old_parent.contents[old_name]","        old_parent.contents.pop(old_name)")])
-add('C02','twin: _remove iterates without the list copy variable','twin',[('pydoctor/model.py',"        oc = list(o.contents.values())\n        for c in oc:\n            self._remove(c)","        for c in list(o.contents.values()):\n            self._remove(c)")])
+add('C02','twin: _remove iterates without the list copy variable','twin',[('pydoctor/model.py',"        oc = list(o.contents.values()) + o._shadowed_members\n        for c in oc:\n            self._remove(c)","        for c in list(o.contents.values()) + o._shadowed_members:\n            self._remove(c)")])
 add('C02','break: extension-style direct write to contents','break',[('pydoctor/extensions/attrs.py',"    if not isinstance(value, bool):\n        module.report(","    if not isinstance(value, bool):\n        module.contents['x'] = module\n        module.report(")],['R02.1'])
 add('C02','break: rootobjects cleanup dropped (F9 returns)','break',[('pydoctor/model.py',"            if first in self.rootobjects:\n                self.rootobjects.remove(first)\n","")],['R02.2'])
-add('C02','break: readd no longer recurses','break',[('pydoctor/model.py',"            self.allobjects[o.fullName()] = o\n            for c in o.contents.values():\n                readd(c)","            self.allobjects[o.fullName()] = o")],['R02.3'])
+add('C02','break: readd no longer recurses','break',[('pydoctor/model.py',"            self.allobjects[o.fullName()] = o\n            for c in chain(o.contents.values(), o._shadowed_members):\n                readd(c)","            self.allobjects[o.fullName()] = o")],['R02.3'])
 
 # ---------------- C03
 add('C03','twin: exception table reordered','twin',[('pydoctor/model.py',"_STD_LIB_EXCEPTIONS = ('ArithmeticError', 'AssertionError', 'AttributeError', ","_STD_LIB_EXCEPTIONS = ('AssertionError', 'ArithmeticError', 'AttributeError', ")])
@@ -146,7 +146,9 @@ add('C10','break: package docformat consulted first','break',[('pydoctor/model.p
 add('C10','twin: own docformat tested with `is not None` first','twin',[('pydoctor/model.py',"        if self._docformat:\n            return self._docformat\n        elif isinstance(self.parent, Package):","        if not self._docformat:\n            pass\n        else:\n            return self._docformat\n        if isinstance(self.parent, Package):")])
 add('C11','break: linker freezes the page url at construction','break',[('pydoctor/linker.py',"        self._page_object: Optional['model.Documentable'] = None\n        self._page_object_switched = False","        self._page_object: Optional['model.Documentable'] = None\n        self._page_object_switched = False\n        self._url = obj.page_object.url")],['R11.5'])
 add('C11','break: inherited docstring rendered without a page context (F18 returns)','break',[('pydoctor/epydoc2stan.py',"        with source.docstring_linker.switch_context(None):\n            return _format_docstring(obj, source)","        return _format_docstring(obj, source)")],['R11.5'])
-add('C11','break: shadowed duplicate stays visible (F17 returns)','break',[('pydoctor/model.py',"        self._privacyClassCache[prev.fullName()] = PrivacyClass.HIDDEN\n","")],['R11.3'])
+add('C11','break: shadowed duplicate stays visible (F17 returns)','break',[('pydoctor/model.py',"            prev.parent._shadowed_members.append(prev)","            pass")],['R11.3'])
+add('C02','break: shadowed duplicate not attached to its parent (F23 returns)','break',[('pydoctor/model.py',"            prev.parent._shadowed_members.append(prev)","            pass")],['R02.3'])
+add('C02','break: reparenting does not carry the shadowed members','break',[('pydoctor/model.py',"        del self.system.allobjects[self.fullName()]\n        for o in chain(self.contents.values(), self._shadowed_members):","        del self.system.allobjects[self.fullName()]\n        for o in self.contents.values():")],['R02.3'])
 add('C13','twin: cursor tests written with the comparison first','twin',[('pydoctor/qnmatch.py',"            while j < n and pat[j] != ']':\n                j = j+1","            while j < n and pat[j] != ']':\n                j += 1")])
 add('C13','break: rules sorted by pattern','break',[('pydoctor/options.py',"    return list(map(functools.partial(parse_privacy_tuple, opt='--privacy'), l))","    return sorted(map(functools.partial(parse_privacy_tuple, opt='--privacy'), l), key=lambda r: r[1])")],['R13.3'])
 add('C14','break: intersphinx link shows the url','break',[('pydoctor/linker.py',"    return tags.a(label, href=url, class_='intersphinx-link')","    return tags.a(url, href=url, class_='intersphinx-link')")],['R14.6'])
